@@ -11,7 +11,7 @@ from .common import ScriptedApp, build_request, token_body, AppExc, AppBaseExc
 
 PROPERTY = "C09"
 LEVEL = "fault_enumeration"
-BUDGET = {"quick": 25, "thorough": 540}
+BUDGET = {"quick": 40, "thorough": 540}
 SECRET = "SeCrEt-7f3a"
 EXC = ["Exception", "FileNotFoundError", "ConnectionResetError", "BaseException", "SystemExit"]
 EVIDENCE = {
